@@ -322,7 +322,7 @@ def run(ctx: Ctx) -> int:
     cases = cases_from_states(printed)
     n_tlc = len(cases)
     rng = random.Random(ctx.seed * 1000003 + 16)
-    rnd = random_cases(rng, 400 if tier == "quick" else 6000)
+    rnd = random_cases(rng, 300 if tier == "quick" else 6000)
     ntr = decide(ctx, cases, "PBExprTrace2" if tier == "quick" else "PBExprTrace3")
     ntr += decide(ctx, rnd, "PBExprTrace")
     ctx.extra["spellings"] = FORMS
